@@ -49,6 +49,21 @@ CLAIMED = {
             "At every state of a depth-5/6 exploration on two indexes: wrong-length add/append/search, appends around the maximum key of the whole database, deletes of absent ids; exact error values, byte-identical dump after each rejected call, accepted append = add.",
             "Trusted: LMDB/heed (nested transactions), roaring, rayon.",
             "DESIGN.md §3 C19"),
+    "C16": ("model_checking", "E6-format-model",
+            "independent format model (decoder/encoder of Appendix A) checked against the implementation: exhaustive key lattice, every explored state decoded and compared with the API, golden dumps of the reference commit replayed through the current code",
+            "The model is a second implementation of the on-disk layout. Conformance in both directions: every key of the boundary lattice and every pair for ordering; every state the history explorer produces must decode under the model and agree with the public API; dumps written by the pinned reference commit for all 7 metrics must open, match the recorded items and query answers, satisfy S, and accept an incremental update.",
+            "Trusted: LMDB/heed, roaring's portable serialisation. Fixtures are data generated once by a7b9462 (see /verif/fixtures/README.md).",
+            "DESIGN.md §3 C16"),
+    "C17": ("model_checking", "E6-format-model",
+            "every explored Cosine state is rewritten to the v0.4 layout by an independent transformation and upgraded by the real code; byte-for-byte comparison with the current-layout dump",
+            "Every state of a Cosine history exploration (built or with pending updates, two indexes) is inverted to the v0.4 layout and run through cosine_from_0_4_to_0_5 (two environments and one environment, both old metric names); the result must be the original dump minus version records; from_0_5_to_0_6 must add exactly the version records.",
+            "Trusted: LMDB/heed, roaring. The v0.4 layout is taken from the upgrade module's own description of it (no v0.4 binary exists in the sandbox).",
+            "DESIGN.md §3 C17"),
+    "C18": ("model_checking", "E1-transaction-explorer",
+            "explicit-state BFS over histories containing prepare_changing_distance to each of the 7 metrics, between two built neighbour indexes; store, staleness, isolation, structure and exact-search oracles after every action",
+            "All histories (depth 5-6) of adds, overwrites, deletes, builds and metric changes (all 49 ordered pairs, chains included) on an index between two built neighbours; after each action the items/vectors (API and raw bytes), the absence of the old forest, need_build/open verdicts, neighbour bytes and, after rebuilds, S and exact search under the new metric are checked.",
+            "Trusted: LMDB/heed, roaring, rayon.",
+            "DESIGN.md §3 C18"),
 }
 
 NOT_YET = "check not built yet in this session; see DESIGN.md §3 for the planned exploration"
@@ -89,6 +104,9 @@ def main():
             {"name": "E1-transaction-explorer", "path": "/verif/harness/src/txnsys.rs",
              "serves_properties": [p for p in ALL if p in CLAIMED and CLAIMED[p][1] == "E1-transaction-explorer"],
              "kind_free_text": "the same breadth-first explorer over histories with real begin/commit/abort; every transition replays its whole history from an empty environment"},
+            {"name": "E6-format-model", "path": "/verif/harness/src/layout.rs",
+             "serves_properties": [p for p in ALL if p in CLAIMED and CLAIMED[p][1] == "E6-format-model"],
+             "kind_free_text": "independent model of the on-disk layout (current and v0.4) with conformance checks against the implementation on every explored state and on golden dumps"},
         ],
         "checks": checks,
         "notes": "Exit codes: 0 held, 1 VIOLATION, 2 machinery error (no verdict). Known findings: /verif/known_findings.jsonl.",
